@@ -5,7 +5,8 @@ From Coq Require Import List NArith ZArith Bool.
 From Coq Require Import Sorted.
 From I18n Require Import Lib.Outcome Model.Messages Spec.Messages Proofs.MessagesLib Proofs.MessagesFlags Proofs.Messages
   Proofs.MessagesScan Proofs.MessagesUnusual Proofs.MessagesMore Proofs.MessagesFormats Proofs.MessagesClean
-  Generated.StringFormats Generated.ControlChars Generated.PyConsts.
+  Model.MessagesPy Proofs.MessagesSrcFlags Proofs.MessagesSrc
+  Generated.StringFormats Generated.ControlChars Generated.PyConsts Generated.MessagesSrc.
 Import ListNotations.
 Local Open Scope N_scope.
 
@@ -452,3 +453,58 @@ Theorem C16_clean_catalog_decl_silent : forall cfg cat ds, formats_sane (c_forma
   clean_catalog_decl cfg cat -> check_messages cfg cat = Ok ds -> forall d, In d ds -> is_tag d = false.
 Proof. exact clean_catalog_decl_silent. Qed.
 Print Assumptions C16_clean_catalog_decl_silent.
+
+(* --- source tie (notes/SRC10.md) ---
+   Generated/MessagesSrc.v is the statement-by-statement translation of is_header_entry, Checker._check_message_flags,
+   _check_message_xml_format, _check_message_formats and check_messages of the working tree's lib/check/__init__.py
+   (tools/gen/gen_messages_src.py, regenerated on every run).  The theorems say that, for every configuration, oracle
+   and catalog, the translated code computes what the model computes.  A behavioural edit of that code changes the
+   generated text and these no longer compile. *)
+Theorem C16_source_tie_header : forall e, src_is_header_entry e = is_header e.
+Proof. exact src_is_header_entry_eq. Qed.
+Print Assumptions C16_source_tie_header.
+
+(* the one loop of _check_message_flags = classification followed by the model's independent data flows; same tags in
+   the same order, same exception; the returned info carries fuzzy, the last valid range and the positive formats *)
+Theorem C16_source_tie_flags : forall cfg e,
+  flags_result_matches (src_check_message_flags cfg e) (check_flags cfg (is_some (me_plural e)) (me_flags e)).
+Proof. exact src_check_message_flags_check_flags. Qed.
+Print Assumptions C16_source_tie_flags.
+
+Theorem C16_source_tie_xml_format : forall cfg e flags,
+  src_check_message_xml_format cfg e flags = xml_diags cfg (pi_fuzzy flags) e.
+Proof. exact src_check_message_xml_format_eq. Qed.
+Print Assumptions C16_source_tie_xml_format.
+
+(* the checkers registered in Checker.__init__ run in sorted order of the positive formats, then the XML trigger *)
+Theorem C16_source_tie_formats : forall cfg e flags,
+  src_check_message_formats cfg e flags =
+  do xd <- (if xml_trigger (me_comment e) then xml_diags cfg (pi_fuzzy flags) e else Ok []);
+  Ok (dispatch (sort_dedup str_compare (pi_formats flags)) ++ xd).
+Proof. exact src_check_message_formats_eq. Qed.
+Print Assumptions C16_source_tie_formats.
+
+(* the loop over ctx.file with msgid_counter and found_unusual_characters, and the empty-file test.  view_ok: the
+   values of msgstr_plural in insertion order are a permutation of the values in key order, and me_previous is
+   "any of the three previous_* fields is not None" (what msg_entry abstracts of a polib entry) *)
+Theorem C16_source_tie_messages : forall cfg cat, Forall view_ok cat ->
+  src_check_messages cfg cat = check_messages cfg (map fst cat).
+Proof. exact src_check_messages_eq. Qed.
+Print Assumptions C16_source_tie_messages.
+
+(* non-vacuity: the translated code run on a catalog (second definition of "a" with a range flag on a non-plural
+   entry, msgstr[1] listed before msgstr[0] and empty, a stray "#| msgid") *)
+Definition src_ex_view (vals : list (list N)) (prev : option (list N)) : msg_view :=
+  {| mv_values := vals; mv_prev_ctxt := None; mv_prev_id := prev; mv_prev_plural := None |}.
+Definition src_ex_cat : list (msg_entry * msg_view) :=
+  [ (e_plain [97] [98] [], src_ex_view [] None);
+    (e_plain [97] [98;10] [[114;97;110;103;101;58;50;46;46;49]; s_fuzzy; s_fuzzy], src_ex_view [] None);
+    ({| me_ctxt := None; me_msgid := [99]; me_plural := Some [100]; me_msgstr := []; me_msgstr_plural := [[120]; []];
+        me_flags := [[99;45;102;111;114;109;97;116]]; me_obsolete := false; me_previous := true; me_comment := [] |},
+     src_ex_view [[]; [120]] (Some [122])) ].
+Example C16_src_ex_view_ok : Forall view_ok src_ex_cat.
+Proof. repeat constructor. Qed.
+Example C16_src_ex : src_check_messages (cfg0 0 false) src_ex_cat =
+  Ok [AtMsg 1 (MDupFlag s_fuzzy); AtMsg 1 MRangeNoPlural; AtMsg 1 (MInvalidRange [114;97;110;103;101;58;50;46;46;49]);
+      AtMsg 1 MDuplicateDef; AtMsg 2 (MDispatch s_c); AtMsg 2 MStrayPrevious; AtMsg 2 MPartial].
+Proof. vm_compute. reflexivity. Qed.
